@@ -523,6 +523,10 @@ def rule_compact(ctx, res):
             l = literal(c)
             if l[0] == 'eq' and find_calls(l[1], '::len'):
                 lens.append((term_int(l[2]), l[3]))
+                la = strip_transparent(l[1])
+                if tail_n is not None and l[3] and term_int(l[2]) is not None and term_int(l[2]) >= tail_n and isinstance(la, tuple) and la[0] == 'call' \
+                        and la[1].split('::')[-1] == 'len' and is_param(strip_transparent(la[2][0]), 'src'):
+                    head_cut = term_int(l[2]) - tail_n
             elif l[0] == 'int' and isinstance(l[1], tuple) and l[1][0] == 'call' and l[1][1].split('::')[-1] == 'len' and isinstance(l[2], int):
                 arg = strip_transparent(l[1][2][0])
                 if tail_n is not None and find_calls(arg, 'split_last_chunk') and field_chain(arg)[-1:] == ['0']:
@@ -530,6 +534,8 @@ def rule_compact(ctx, res):
                     head_cut = l[2]
                 else:
                     lens.append((l[2], True))
+                    if tail_n is not None and is_param(arg, 'src') and l[2] >= tail_n:
+                        head_cut = l[2] - tail_n      # the whole length is tested: the head is everything but the trailing chunk
         if agg_variant(p.ret) == 'Some':
             v = p.ret[2].get('0')
             be = find_calls(v, 'from_be_bytes')
